@@ -698,3 +698,78 @@ pub fn scenario_e(sseed: u64, _tier: Tier) -> Report {
     rep.log = log.into_iter().filter(|r| !matches!(&r.ev, Ev::Listener { name, .. } if name == "state-sample")).collect();
     rep
 }
+
+// ---------------------------------------------------------------------------------------
+// listeners that are slow (real time): the circuit breaker's slow-call detection must measure
+// the wrapped call only. Runs on the real clock with wide margins; a difference must reproduce
+// three times before it is reported (a scheduling stall cannot be a verdict).
+// ---------------------------------------------------------------------------------------
+
+fn run_slow_listener(slow: bool, n: u64) -> Vec<String> {
+    let rt = tokio::runtime::Builder::new_current_thread().enable_time().build().unwrap();
+    let w = World::new();
+    let out = rt.block_on(async {
+        let mk = move || {
+            if slow {
+                std::thread::sleep(Duration::from_millis(120));
+            }
+        };
+        let (a, b) = (mk.clone(), mk.clone());
+        let l = tower_resilience_circuitbreaker::CircuitBreakerLayer::builder()
+            .failure_rate_threshold(1.0)
+            .sliding_window_size(4)
+            .minimum_number_of_calls(4)
+            .slow_call_duration_threshold(Duration::from_millis(90))
+            .slow_call_rate_threshold(0.5)
+            .wait_duration_in_open(Duration::from_secs(3600))
+            .on_call_permitted(move |_| a())
+            .on_success(move |_| b())
+            .build();
+        let mut svc = l.layer(w.probe(1));
+        let mut v = vec![];
+        for i in 0..n {
+            let req = Req::new(i + 1, 0, vec![Step { lat: Lat::Us(0), out: Out::Ok }]);
+            let r = match std::future::poll_fn(|cx| svc.poll_ready(cx)).await {
+                Ok(()) => svc.call(req).await,
+                Err(e) => Err(e),
+            };
+            v.push(match r {
+                Ok(_) => "ok".to_string(),
+                Err(e) => crate::props::c04::map_err(&e).short(),
+            });
+        }
+        v
+    });
+    out
+}
+
+pub fn scenario_slow(sseed: u64, _tier: Tier) -> Report {
+    let mut rep = Report::default();
+    let n = 6 + sseed % 3;
+    let mut differing = 0;
+    let mut last = (vec![], vec![]);
+    for _ in 0..3 {
+        let quiet = run_slow_listener(false, n);
+        let slow = run_slow_listener(true, n);
+        if quiet != slow {
+            differing += 1;
+        }
+        last = (quiet, slow);
+        if differing == 0 {
+            break;
+        }
+    }
+    if differing == 3 {
+        rep.violate(
+            "C20:listeners:circuitbreaker:slow-listener-changed-outcome",
+            format!("with listeners that take 120ms each (slow-call threshold 90ms, instantaneous inner calls) the outcomes were {:?}; with quiet listeners {:?}", last.1, last.0),
+        );
+    } else if differing > 0 {
+        rep.inconclusive = Some("a difference between the slow and the quiet run did not reproduce (scheduling stall?)".into());
+    }
+    rep.nontrivial = true;
+    rep.sig = crate::prng::mix(sseed, n);
+    rep.bucket("slow-listeners:circuitbreaker".to_string());
+    rep.case = json!({"engine": "slow-listeners", "calls": n, "quiet": last.0, "slow": last.1});
+    rep
+}
